@@ -1,1 +1,13 @@
-From VP Require Import Base.Tactics Sase.Model Sase.Props.
+(* Pins the C05 statements. Compiled on every run. *)
+From VP Require Import Base.Tactics Zdd.Model Zdd.ProofsBase Zdd.ProofsPwo Zdd.ProofsArena
+  Sase.Model Sase.ProofsBounds Sase.ProofsSound Sase.ProofsSoundEngine Sase.ProofsCompile Sase.ProofsKleene Sase.Props.
+Check (C05_runs_bound :
+  forall g evs en', 1 <= g_max_runs g -> run_engine g engine0 evs = Some en' ->
+    runs_bounded (g_max_runs g) en').
+Check (C05_enumeration_cap :
+  forall r k p mx, KInv k -> k_needs k = true ->
+  exists ms, enumerate r k p mx = Some ms /\ length ms <= Nat.max mx 1).
+Check (eq_refl : runs_bounded = fun mx en =>
+  length (e_runs en) <= mx /\ Forall (fun p => length (snd p) <= mx) (e_parts en)).
+Print Assumptions C05_runs_bound.
+Print Assumptions C05_enumeration_cap.
